@@ -1,6 +1,6 @@
 import ExaModel.Lemmas.Wire
 import ExaModel.Lemmas.WireMerge
-import ExaModel.Lemmas.WireCount
+import ExaModel.Lemmas.WireCountTlv
 import ExaModel.Generated.AttrTable
 import ExaModel.Generated.FamilyTable
 set_option linter.unusedSimpArgs false
@@ -216,7 +216,7 @@ def uEx : UpdateSem :=
     nlri := [{ pathId := none, labels := [], rd := [], plen := 24, pfx := [192, 168, 1] }] }
 
 example : decodeUpdate pEx (encodeUpdate pEx uEx) = .ok uEx := by decide
-example : (encodeUpdate pEx uEx).length = 127 := by decide
+example : (encodeUpdate pEx uEx).length = 113 := by decide
 example : semErr pEx uEx = none := by decide
 example : ∀ a ∈ uEx.attrs, flagErr a.flags a.val.code = none := by decide
 /-- the canonical RFC 6793 case (finding F20): AS_PATH [65002, AS_TRANS, 3] + AS4_PATH [70000, 3] -/
